@@ -241,3 +241,24 @@ def run(ctx):
                     if fn == "value_or_supply_raw_response":
                         k = [l for d, l, _ in g if d == "disc(uplink)"]
                         r.check(k and ((k[0] == "Value") == (c.name == "value_lane")), "%s/%s/kind-%s" % (fn, v, c.name), c.loc(), "uplink kind %s -> %s" % (k, c.name), "uplink kind %s routed to %s" % (k, c.name))
+
+    with ctx.rule("C03.R10", "T1", "a remote that links implicitly by syncing is linked before its snapshot can lose keys to standard events", floor=2) as r:
+        # WriteQueues::pop drops a key from every pending snapshot when it emits a standard event for it ("the remote gets the
+        # newer value as an ordinary event"). That is only sound if the syncing remote receives the lane's standard events,
+        # i.e. is already recorded in the runtime's Links when they are broadcast. For `sync` without a preceding `link` the
+        # runtime links the remote when the first response addressed to it arrives (handle_event) - after the lane may already
+        # have emitted standard events. Necessary: either the read task registers the link when it forwards the sync request,
+        # or the lane does not drop snapshot keys in favour of standard events.
+        pop = ag.fn(name="pop", self_adt="lanes::queues::WriteQueues", kind="AssocFn", regex=r"WriteQueues::<K>::pop$")
+        drops = [c for c in pop.calls if c.name == "update_sync_queues"]
+        rd = [b for b in rt.all_bodies() if b.defpath.endswith("agent::task::read_task::{closure#0}")]
+        if len(rd) != 1:
+            raise AnchorMissing("runtime read_task coroutine")
+        rd = ctx.saw(rd[0])
+        syncs = [c for c in rd.calls if c.name == "start_sync"]
+        if len(syncs) != 1:
+            raise AnchorMissing("read_task: start_sync call (found %d)" % len(syncs))
+        links = [c for c in rd.calls if c.name == "send" and len(c.args) > 1 and "RwCoordinationMessage::Link(" in describe_operand(rd, c.args[1]) and rd.dominates(c.block, syncs[0].block)]
+        r.check(bool(drops), "WriteQueues::pop/drops-snapshot-keys-for-standard-events", where(pop), "standard events remove their key from the pending snapshots (so the syncing remote must be receiving standard events)")
+        r.check(bool(links) or not drops, "implicit-link-sync/link-registered-before-sync-is-forwarded", syncs[0].loc(), "the link is registered with the write task before the sync request reaches the lane",
+                "read_task forwards a sync request to the lane without registering the link; the remote is only linked when its first sync response arrives, but WriteQueues::pop may emit standard events first and drops their keys from the remote's snapshot: those keys never reach it")
